@@ -242,6 +242,34 @@ def cases(seed: int = 0, thorough: bool = False):
                     ("x[i, ::int64(2), int64(0)]", lambda x, i, j: x[i, ::np.int64(2), np.int64(0)]),
                     ("x[int64(0), :, j]", lambda x, i, j: x[np.int64(0), :, j])]:
         add(f"advindex-numpy-int:{lbl}", mk, mk, {"x": a3, "i": i1, "j": i2}, "index", exact=True)
+    # an Ellipsis next to advanced indices: standing for one axis, for several, and for NONE (then it still separates
+    # the advanced indices, and every axis must stay indexed explicitly — trailing / leading full slices included)
+    a4 = _arr(rng, (2, 3, 4, 3), "float64")
+    k1, k2 = np.array([1, 0, -1]), np.array([[0], [-1]])
+    for lbl, mk in [("x[i, ..., j]", lambda x, i, j: x[i, ..., j]), ("x[i, ..., j, :]", lambda x, i, j: x[i, ..., j, :]),
+                    ("x[:, i, ..., j]", lambda x, i, j: x[:, i, ..., j]), ("x[..., i, j, :]", lambda x, i, j: x[..., i, j, :]),
+                    ("x[i, j, ..., :]", lambda x, i, j: x[i, j, ..., :]), ("x[i, ..., 1, :]", lambda x, i, j: x[i, ..., 1, :]),
+                    ("x[i, ..., j, ::2]", lambda x, i, j: x[i, ..., j, ::2]), ("x[1, ..., j, :]", lambda x, i, j: x[1, ..., j, :]),
+                    ("x[i, :, j, ...]", lambda x, i, j: x[i, :, j, ...]), ("x[..., i]", lambda x, i, j: x[..., i])]:
+        add(f"advindex-ellipsis:3d:{lbl}", mk, mk, {"x": a3, "i": i1, "j": i2}, "index", exact=True)
+    for lbl, mk in [("y[i, ..., j, :, :]", lambda x, i, j: x[i, ..., j, :, :]), ("y[:, i, ..., j, :]", lambda x, i, j: x[:, i, ..., j, :]),
+                    ("y[i, ..., j, :]", lambda x, i, j: x[i, ..., j, :]), ("y[:, :, i, ..., j]", lambda x, i, j: x[:, :, i, ..., j]),
+                    ("y[i, :, ..., j, :]", lambda x, i, j: x[i, :, ..., j, :]), ("y[i, ..., :, j]", lambda x, i, j: x[i, ..., :, j]),
+                    ("y[i, ..., j, 1:, ::-1]", lambda x, i, j: x[i, ..., j, 1:, ::-1]), ("y[0, i, ..., j, :]", lambda x, i, j: x[0, i, ..., j, :])]:
+        add(f"advindex-ellipsis:4d:{lbl}", mk, mk, {"x": a4, "i": k1, "j": k2}, "index", exact=True)
+    # operands of different RANK where one shape is a prefix / suffix / extension of the other (NumPy rejects; C03
+    # flags "pytato builds an array" and "the constructor accepts, then .shape raises")
+    r23, r2, r231, r3 = _arr(rng, (2, 3), "float64"), _arr(rng, (2,), "float64"), _arr(rng, (2, 3, 1), "float64"), _arr(rng, (3,), "float64")
+    for lbl, b, r, inp in [
+            ("concatenate([(2,3),(2,)],1)", lambda x, y: pt.concatenate([x, y], axis=1), lambda x, y: np.concatenate([x, y], axis=1), {"x": r23, "y": r2}),
+            ("concatenate([(2,),(2,3)],0)", lambda x, y: pt.concatenate([y, x], axis=0), lambda x, y: np.concatenate([y, x], axis=0), {"x": r23, "y": r2}),
+            ("concatenate([(2,3),(2,3,1)],1)", lambda x, y: pt.concatenate([x, y], axis=1), lambda x, y: np.concatenate([x, y], axis=1), {"x": r23, "y": r231}),
+            ("concatenate([(2,3,1),(2,3)],2)", lambda x, y: pt.concatenate([y, x], axis=2), lambda x, y: np.concatenate([y, x], axis=2), {"x": r23, "y": r231}),
+            ("concatenate([(2,3),(3,)],0)", lambda x, y: pt.concatenate([x, y], axis=0), lambda x, y: np.concatenate([x, y], axis=0), {"x": r23, "y": r3}),
+            ("stack([(2,),(2,3)])", lambda x, y: pt.stack([y, x]), lambda x, y: np.stack([y, x]), {"x": r23, "y": r2}),
+            ("stack([(2,3),(2,3,1)],1)", lambda x, y: pt.stack([x, y], axis=1), lambda x, y: np.stack([x, y], axis=1), {"x": r23, "y": r231}),
+            ("stack([(2,3),(2,)],axis=2)", lambda x, y: pt.stack([x, y], axis=2), lambda x, y: np.stack([x, y], axis=2), {"x": r23, "y": r2})]:
+        add(f"rank-mismatch:{lbl}", b, r, inp, "rank-mismatch", exact=True)
     # integer PARAMETERS spelled as fixed-width NumPy integers whose arithmetic would wrap around or overflow
     # (axis lengths whose product exceeds the type, shifts that are negated, widths added to lengths, -1 next to unsigned)
     u1_, i1__, i8_ = np.uint8, np.int8, np.int64
@@ -342,6 +370,17 @@ def cases(seed: int = 0, thorough: bool = False):
             "construct", exact=True)
     for args in [(3,), (3, 4), (4, 3), (3, 3, 1), (3, 3, -1), (3, 4, 2), (3, 4, -2), (2, 5, 7)]:
         add(f"eye:{args}", lambda args=args: pt.eye(*args), lambda args=args: np.eye(*args), {}, "construct", exact=True)
+    # zero rows / zero columns given explicitly (0 is not "not given"), keyword spellings, and what is built on them
+    for args, kw in [((3, 0), {}), ((0, 3), {}), ((0,), {}), ((3,), {"M": 0}), ((2,), {"M": 0, "k": 1}), ((3,), {"M": 2}),
+                     ((3,), {"k": 0}), ((3, None), {"k": -1}), ((3, 4), {"k": 0, "dtype": np.int32})]:
+        add(f"eye:{args}:{kw}", lambda args=args, kw=kw: pt.eye(*args, **kw), lambda args=args, kw=kw: np.eye(*args, **kw), {},
+            "construct", exact=True)
+    x32 = _arr(rng, (3, 2), "float64")
+    add("eye:sum(eye(3,0),axis=1)", lambda: pt.sum(pt.eye(3, 0), axis=1), lambda: np.sum(np.eye(3, 0), axis=1), {}, "construct")
+    add("eye:concatenate([eye(3,0),x],1)", lambda x: pt.concatenate([pt.eye(3, 0), x], axis=1),
+        lambda x: np.concatenate([np.eye(3, 0), x], axis=1), {"x": x32}, "construct")
+    add("eye:sum(eye(3,0))+x", lambda x: pt.sum(pt.eye(3, 0)) + x, lambda x: np.sum(np.eye(3, 0)) + x, {"x": x32}, "construct")
+    add("eye:eye(2,M=3)@x", lambda x: pt.eye(2, M=3) @ x, lambda x: np.eye(2, M=3) @ x, {"x": x32}, "construct")
     for args in [(5,), (1, 6), (0, 10, 3), (10, 0, -3), (2, 2), (5, 2)]:
         add(f"arange:{args}", lambda args=args: pt.arange(*args, dtype=np.int64), lambda args=args: np.arange(*args, dtype=np.int64),
             {}, "construct", exact=True)
